@@ -41,7 +41,7 @@ def build_ctx(repo=None, consts=None):
             real = set(sources.init_fields(cls))
             allf = set()
             for c in ctx.mro(cls):
-                allf |= set(C.SCHEMA.get(c, {}))
+                allf |= set(C.SCHEMA.get(c, {})) - {"__tuple__"}
             if real and real != allf:
                 ctx.schema_issues.append(f"{cls}: real fields {sorted(real)} != schema {sorted(allf)}")
     return ctx
@@ -65,6 +65,11 @@ def fresh_param(X, st, name, t):
         a = st.heap["@alloc"][v]
         st.pc.append(z3.Implies(z3.Not(none), a) if none is not None else a)
         return Ref(v, arg, none=none)
+    if base == "dict":
+        ent = {}
+        for k_ in arg.split(","):
+            ent[k_] = (fresh(f"{name}_has_{k_}", B), Num(fresh(f"{name}_{k_}")))
+        return DictObj(ent, none=none)
     if base == "list":
         v = fresh(name)
         a = z3.And(st.heap["@alloc"][v], st.heap["@len"][v] >= 0)
@@ -151,7 +156,8 @@ def solve(ob, want_model=None, timeout_ms=None, relax=False):
         s.add(*ob.assumptions)
     s.add(z3.Not(ob.goal))
     r = s.check()
-    if r == z3.unknown and not relax and timeout_ms is None:
+    if r == z3.unknown and not relax and timeout_ms is None and _retry_budget[0] > 0:
+        _retry_budget[0] -= 1
         # a timeout under load must not flip a verdict: one retry with four times the budget on a fresh solver
         s = z3.Solver()
         s.set("timeout", 4 * TIMEOUT_MS)
@@ -167,6 +173,9 @@ def solve(ob, want_model=None, timeout_ms=None, relax=False):
             model = {"decode_error": repr(e)}
     res = "unsat" if r == z3.unsat else ("sat" if r == z3.sat else "unknown")
     return res, time.time() - t0, model, "z3"
+
+
+_retry_budget = [6]     # per function (reset in _verify): a changed tree with many unknowns must not take hours
 
 
 def smt2_of(ob):
@@ -341,7 +350,7 @@ def _verify(qual, repo, ctx, bound, second_solver, fast, case):
                     X.oblige(f"raises[{v}]::exit{n_}", pst, FALSE, "raises", text=f"{v} is not allowed by the contract")
             else:
                 raise VCError("break/continue at function level")
-        missing = [nm for nm, _, _ in C.asserts if nm not in getattr(X, "anchors_hit", set())]
+        missing = [nm for nm, _, _ in C.asserts if nm not in getattr(X, "anchors_hit", set())] + ["lemma:" + l for l, _, _ in C.lemma_at if "lemma:" + l not in getattr(X, "anchors_hit", set())]
         if missing:
             raise VCError(f"assertion anchors not found in the code: {missing}")
         out["exits"] = len(exits)
@@ -372,6 +381,7 @@ def _verify(qual, repo, ctx, bound, second_solver, fast, case):
             return dec
         n_obl = 0
         n_ext = 0
+        _retry_budget[0] = 6
         for ob in X.obls:
             res, dt, model, backend = solve(ob, mk_decoder(ob), 1500 if fast else None, relax=fast)
             others = []
@@ -416,16 +426,49 @@ def _verify(qual, repo, ctx, bound, second_solver, fast, case):
 
 
 def _worker(args):
-    qual, repo, kw = args
-    return verify(qual, repo, **kw)
+    qual, repo, kw, case = args
+    if case is None:
+        return verify(qual, repo, **kw)
+    ctx = build_ctx(repo)
+    return _verify(qual, repo, ctx, kw.get("bound"), kw.get("second_solver", False), kw.get("fast", False), case)
+
+
+def _merge(parts):
+    rank = {"ok": 0, "undecided": 1, "refuted": 2, "error": 3}
+    merged = None
+    for r in parts:
+        if merged is None:
+            merged = r
+            continue
+        merged["obligations"] += r["obligations"]
+        merged["wall_s"] = round(merged["wall_s"] + r["wall_s"], 3)
+        if rank[r["status"]] > rank[merged["status"]]:
+            merged["status"] = r["status"]
+            merged["error"] = r.get("error")
+        for k in ("notes", "inlined", "callee_contracts"):
+            merged[k] = sorted(set(merged.get(k, [])) | set(r.get(k, [])))
+    return merged
 
 
 def verify_many(quals, repo=None, procs=None, **kw):
+    """functions (and the cases of case-split contracts) are verified in parallel worker processes"""
     import multiprocessing as mp
     consts_mod.load(repo or consts_mod.REPO)
-    procs = procs or min(len(quals), os.cpu_count() or 4)
-    if procs <= 1 or len(quals) == 1:
-        ctx = build_ctx(repo)
+    ctx = build_ctx(repo)
+    tasks = []
+    for q in quals:
+        C = ctx.contracts.get(q)
+        if C is not None and C.cases:
+            for ci, case in enumerate(list(C.cases) + ["__exhaustive__"]):
+                tasks.append((q, repo, kw, (ci, case)))
+        else:
+            tasks.append((q, repo, kw, None))
+    procs = procs or min(len(tasks), os.cpu_count() or 4)
+    if procs <= 1 or len(tasks) == 1:
         return [verify(q, repo, ctx=ctx, **kw) for q in quals]
     with mp.get_context("fork").Pool(procs) as pool:
-        return pool.map(_worker, [(q, repo, kw) for q in quals], chunksize=1)
+        res = pool.map(_worker, tasks, chunksize=1)
+    out = []
+    for q in quals:
+        out.append(_merge([r for t, r in zip(tasks, res) if t[0] == q]))
+    return out
